@@ -66,10 +66,10 @@ func c15Run(c *rt.C) {
 	scansPer := 6
 	perturb := pick(r, 0, 1, 4, 8)
 	if perturb > 0 {
-		y := yielder(r.Int63(), perturb)
+		pt := perturber(r.Int63(), perturb)
 		skiplist.VerifSetHook(func(id int, arg unsafe.Pointer) {
 			if id >= skiplist.VpInsBeforePublish {
-				y()
+				pt(id)
 			}
 		})
 	}
